@@ -125,6 +125,11 @@ impl HttpApp {
         })
     }
 
+    /// The future of one request (not driven): lets a caller interleave several requests on one worker.
+    pub fn start(&self, w: WireReq) -> Pin<Box<dyn Future<Output = RawResp>>> {
+        (self.call)(w.build())
+    }
+
     pub fn send(&self, w: WireReq) -> Result<RawResp, String> {
         let req = w.build();
         let r = std::panic::catch_unwind(std::panic::AssertUnwindSafe(|| block_on((self.call)(req))));
@@ -187,11 +192,27 @@ struct BodyStream {
     delivered: usize,
     /// insert empty chunks (legal in a stream) before these chunk indices
     empties: Vec<usize>,
+    /// the network is slow: before a chunk (or the end) the stream may report "not ready yet",
+    /// which lets other requests of the same worker run (async interleaving at await points)
+    pend: Option<crate::rng::Rng>,
+    just_pended: bool,
 }
 
 impl Stream for BodyStream {
     type Item = Result<Bytes, PayloadError>;
-    fn poll_next(mut self: Pin<&mut Self>, _cx: &mut Context<'_>) -> Poll<Option<Self::Item>> {
+    fn poll_next(mut self: Pin<&mut Self>, cx: &mut Context<'_>) -> Poll<Option<Self::Item>> {
+        if !self.just_pended {
+            let pend_now = match self.pend.as_mut() {
+                Some(r) => r.chance(1, 2),
+                None => false,
+            };
+            if pend_now {
+                self.just_pended = true;
+                cx.waker().wake_by_ref();
+                return Poll::Pending;
+            }
+        }
+        self.just_pended = false;
         sched::point(Site::Chunk);
         if let Some(k) = self.fail_after {
             if self.delivered >= k {
@@ -224,6 +245,8 @@ pub struct WireReq {
     pub chunks: Vec<Bytes>,
     pub fail_after: Option<usize>,
     pub empties: Vec<usize>,
+    /// seed of the "chunk not ready yet" pattern (None: every chunk is ready at once)
+    pub pending_seed: Option<u64>,
 }
 
 impl WireReq {
@@ -242,6 +265,8 @@ impl WireReq {
             fail_after: self.fail_after,
             delivered: 0,
             empties: self.empties,
+            pend: self.pending_seed.map(crate::rng::Rng::new),
+            just_pended: false,
         };
         let boxed: Pin<Box<dyn Stream<Item = Result<Bytes, PayloadError>>>> = Box::pin(stream);
         let (req, _) = req.replace_payload(Payload::from(boxed));
@@ -261,6 +286,7 @@ pub fn wire_for(req: &Req, chunking: &Chunking) -> Option<WireReq> {
             chunks: chunk_body(&Bytes::from(data.as_ref().clone()), chunking),
             fail_after: None,
             empties: vec![],
+            pending_seed: None,
         },
         Req::GetChild { c, parent } => WireReq {
             method: "GET".into(),
@@ -269,6 +295,7 @@ pub fn wire_for(req: &Req, chunking: &Chunking) -> Option<WireReq> {
             chunks: vec![],
             fail_after: None,
             empties: vec![],
+            pending_seed: None,
         },
         Req::AddSnapshot { c, v, data } => WireReq {
             method: "POST".into(),
@@ -277,6 +304,7 @@ pub fn wire_for(req: &Req, chunking: &Chunking) -> Option<WireReq> {
             chunks: chunk_body(&Bytes::from(data.as_ref().clone()), chunking),
             fail_after: None,
             empties: vec![],
+            pending_seed: None,
         },
         Req::GetSnapshot { c } => WireReq {
             method: "GET".into(),
@@ -285,6 +313,7 @@ pub fn wire_for(req: &Req, chunking: &Chunking) -> Option<WireReq> {
             chunks: vec![],
             fail_after: None,
             empties: vec![],
+            pending_seed: None,
         },
     })
 }
